@@ -164,9 +164,17 @@ def gen_schemas(r: random.Random, o: Opts) -> dict:
         variants = [snake, base + "2", snake + "_2", base.upper(), re.sub(r"([a-z])([A-Z])", r"\1-\2", base), base.lower()]
         extra = [v for v in r.sample(variants, r.randint(1, 3)) if v not in names]
         names = names[:1] + extra + names[1:]
+        colliding = set(names[:1] + extra)
+    else:
+        colliding = set()
     schemas: dict = {}
     for i, name in enumerate(names):
-        earlier = names[:i]
+        # colliding schemas are leaf objects nobody references: references to de-collided classes are a recorded defect (F54)
+        earlier = [n for n in names[:i] if n not in colliding]
+        if name in colliding:
+            pn = r.sample([p for p in PROP_NAMES if p not in ("class", "type")], r.randint(1, 4))
+            schemas[name] = {"type": "object", "properties": {p: _prim0(r, o, allow_enum=False) for p in pn}}
+            continue
         kind = r.random()
         if kind < 0.08 and o.enums:
             schemas[name] = {"type": "string", "enum": r.sample(["red", "green", "dark-blue", "N/A", "2x"], r.randint(1, 4))}
